@@ -42,8 +42,15 @@ def _rnd(x, nd=6):
 
 # ------------------------------------------------------------------------- tasks
 def gen_bounds(r: random.Random, scale: float, shape: str | None = None):
-    shape = shape or r.choice(["sym", "sym", "asym", "zero_lo", "zero_hi", "neg", "pos"])
+    shape = shape or r.choice(["sym", "sym", "sym", "asym", "asym", "zero_lo", "zero_lo", "zero_hi", "zero_hi", "neg", "neg",
+                               "pos", "pos", "far_narrow"])
     s = scale
+    if shape == "far_narrow":
+        # a narrow box far from the origin (timestamps, frequencies): offset ~ 1e7..1e9 widths
+        off = r.choice([1e7, 1e8, 1e9]) * s * r.choice([1.0, -1.0])
+        w = _rnd(s * r.uniform(0.5, 2.0))
+        lo = float(_rnd(off, 12))
+        return lo, lo + w
     if shape == "sym":
         return -s, s
     if shape == "asym":
@@ -320,6 +327,47 @@ def config_defaults(optimizer):
     return _DEFAULTS[optimizer]
 
 
+_EXTREME = {}
+
+
+def extreme_candidates(optimizer, validate):
+    """Boundary / far-away values of the optimizer's own parameters that its config validators accept
+    (finite, enumerable set; the validators in /repo are the authority)."""
+    if optimizer in _EXTREME:
+        return _EXTREME[optimizer]
+    base = base_configs()[optimizer]["params"]
+    cur = dict(base)
+    cur.update(config_defaults(optimizer))
+    out = []
+    for k in sorted(cur):
+        if k in COMMON:
+            continue
+        v = cur[k]
+        cands = []
+        if isinstance(v, bool):
+            cands = [not v]
+        elif isinstance(v, int):
+            cands = [1, 2, 3, v * 2, v * 5, v + 7]
+        elif isinstance(v, float):
+            cands = [0.0, 1e-6, 0.01, 0.5, 0.97, 0.999, 1.0, 1.5, _rnd(v * 3), _rnd(v * 10), _rnd(v / 10)]
+        elif isinstance(v, list) and v and all(isinstance(e, (int, float)) and not isinstance(e, bool) for e in v):
+            cands = [[v[0]] * len(v), list(reversed(v)), [type(e)(e * 3) for e in v], [v[-1]] * len(v)]
+            if all(isinstance(e, float) for e in v):
+                cands += [[0.0] * len(v), [1.0] * len(v), [0.999] * len(v)]
+        for c in cands:
+            if c == v:
+                continue
+            q = dict(base)
+            q[k] = c
+            try:
+                validate(optimizer, q)
+            except Exception:
+                continue
+            out.append((k, c))
+    _EXTREME[optimizer] = out
+    return out
+
+
 def perturb_value(r: random.Random, v):
     if isinstance(v, bool):
         return not v
@@ -336,7 +384,7 @@ def perturb_value(r: random.Random, v):
 
 
 def gen_config(r: random.Random, optimizer: str, validate, *, cycles=(1, 12), perturb_p=0.3,
-               pop_scales=(1, 1, 1.5, 2, 3), stop_opts=True, any_pop_p=0.3):
+               pop_scales=(1, 1, 1.5, 2, 3), stop_opts=True, any_pop_p=0.3, extreme_p=0.0):
     """``validate(optimizer, params)`` builds the real config (raises if the validators reject)."""
     base = copy.deepcopy(base_configs()[optimizer]["params"])
     p = dict(base)
@@ -356,7 +404,20 @@ def gen_config(r: random.Random, optimizer: str, validate, *, cycles=(1, 12), pe
     else:
         p["fitness_error"] = None
     perturbed = []
-    if r.random() < perturb_p:
+    if extreme_p and r.random() < extreme_p:
+        # one parameter at a boundary / far-away value that the validators accept
+        ex = extreme_candidates(optimizer, validate)
+        if ex:
+            k, c = ex[r.randrange(len(ex))]
+            q = dict(p)
+            q[k] = copy.deepcopy(c)
+            try:
+                validate(optimizer, q)
+                p = q
+                perturbed.append(k)
+            except Exception:
+                pass
+    elif r.random() < perturb_p:
         defaults = config_defaults(optimizer)
         # fields the fixtures leave at their defaults select code paths no test reaches: weigh them up
         keys = sorted(k for k in base if k not in COMMON) + 3 * sorted(defaults)
@@ -428,7 +489,8 @@ def gen_scenario(seed: int, optimizer: str, family: str, mode: str, validate, *,
     cyc = opts.get("cycles", (1, 12) if tier == "quick" else (1, 40))
     cfg, perturbed = gen_config(r, optimizer, validate, cycles=cyc, perturb_p=opts.get("perturb_p", 0.3),
                                 pop_scales=opts.get("pop_scales", (1, 1, 1.5, 2, 3)),
-                                stop_opts=opts.get("stop_opts", True), any_pop_p=opts.get("any_pop_p", 0.3))
+                                stop_opts=opts.get("stop_opts", True), any_pop_p=opts.get("any_pop_p", 0.3),
+                                extreme_p=opts.get("extreme_p", 0.05))
     workers = None
     if mode != "serial":
         workers = r.choice([1, 2, 3, 4, 4, 8, 16]) if r.random() < 0.8 else r.randrange(1, 17)
